@@ -51,10 +51,19 @@ pub struct Job {
     pub payload: Vec<PTok>,
     pub expect: Expect,
     pub kind: &'static str,
+    /// a block comment written in front of payload token i (i = len: behind the last one)
+    pub comment_at: Option<usize>,
 }
 
 pub fn eval(j: &Job) -> Result<&'static str, (String, String)> {
-    let payload = render_payload(&j.payload);
+    let payload = match j.comment_at {
+        None => render_payload(&j.payload),
+        Some(at) => {
+            let mut parts: Vec<String> = j.payload.iter().map(|t| t.text()).collect();
+            parts.insert(at.min(parts.len()), "/* c */".to_string());
+            parts.join(" ")
+        }
+    };
     let text = doc_text(if j.mode != 1 { Some(&j.def_text) } else { None }, &[payload.clone()]);
     let spec = if j.mode != 0 { Some(j.def_text.as_str()) } else { None };
     let v = |o: &str, w: String| Err((o.to_string(), w));
@@ -93,7 +102,10 @@ pub fn eval(j: &Job) -> Result<&'static str, (String, String)> {
     // reload: equal model, same validity
     match load(&t1, spec, false) {
         Loaded::Ok(f2, _) => {
-            if f2 != f {
+            // (a comment in front of an identifier switches off the library's lenient reading "identifier in place of a
+            // string", so with char[n] members the comment-free output may be read differently, with the same tokens
+            // and the same validity: model equality is not demanded for that combination)
+            if f2 != f && !(j.comment_at.is_some() && j.has_str) {
                 return v("reload-differs", format!("payload [{payload}]: the written file loads to a different model"));
             }
             if f2.project.module[0].if_data[0].ifdata_valid != valid {
@@ -385,6 +397,8 @@ pub fn jobs_for(p: &DefPlan, thorough: bool) -> (Vec<Job>, Option<(Vec<Vec<PTok>
     let modes: Vec<u8> = if p.idx < 60 || p.idx >= 900_000 { vec![0, 1, 2] } else { vec![(p.idx % 3) as u8] };
     let mut jobs = Vec::new();
     let mut first_bad: Option<Vec<PTok>> = None;
+    // the comment family uses the first and the longest instance (repetitions with more than one member)
+    let longest = insts.iter().enumerate().max_by_key(|(k, i)| (i.len(), usize::MAX - k)).map(|(k, _)| k).unwrap_or(0);
     for mode in &modes {
         for (k, inst) in insts.iter().enumerate() {
             // the enumerator is checked against the matcher: an instance that the strict matcher rejects is a generator bug
@@ -397,7 +411,12 @@ pub fn jobs_for(p: &DefPlan, thorough: bool) -> (Vec<Job>, Option<(Vec<Vec<PTok>
             } else {
                 Expect::DontCare
             };
-            jobs.push(Job { def_idx: p.idx, def_text: def_text.clone(), float_tol, has_str: hs, mode: *mode, payload: inst.clone(), expect: exp, kind: "instance" });
+            jobs.push(Job { def_idx: p.idx, def_text: def_text.clone(), float_tol, has_str: hs, mode: *mode, payload: inst.clone(), expect: exp, kind: "instance", comment_at: None });
+            if (k == 0 || k == longest) && *mode == modes[0] && exp == Expect::Valid {
+                for at in 0..=inst.len() {
+                    jobs.push(Job { def_idx: p.idx, def_text: def_text.clone(), float_tol, has_str: hs, mode: *mode, payload: inst.clone(), expect: exp, kind: "instance+comment", comment_at: Some(at) });
+                }
+            }
             if k < if thorough { 3 } else { 2 } && *mode == modes[0] {
                 for (d, kind) in deviations(inst) {
                     if !balanced(&d) {
@@ -415,7 +434,7 @@ pub fn jobs_for(p: &DefPlan, thorough: bool) -> (Vec<Job>, Option<(Vec<Vec<PTok>
                     if exp == Expect::Invalid && first_bad.is_none() && !d.is_empty() {
                         first_bad = Some(d.clone());
                     }
-                    jobs.push(Job { def_idx: p.idx, def_text: def_text.clone(), float_tol, has_str: hs, mode: *mode, payload: d, expect: exp, kind });
+                    jobs.push(Job { def_idx: p.idx, def_text: def_text.clone(), float_tol, has_str: hs, mode: *mode, payload: d, expect: exp, kind, comment_at: None });
                 }
             }
         }
@@ -469,7 +488,7 @@ pub fn run(tier: &str) -> Run {
             run.evaluations += 1;
             run.transitions += 3;
             let j = &jobs[k];
-            let h = fnv1a(format!("{}|{}|{}", j.def_text, j.mode, render_payload(&j.payload)).as_bytes());
+            let h = fnv1a(format!("{}|{}|{}|{:?}", j.def_text, j.mode, render_payload(&j.payload), j.comment_at).as_bytes());
             run.nontrivial.insert(h);
             match r {
                 Ok(o) => run.outcome(o),
@@ -477,7 +496,7 @@ pub fn run(tier: &str) -> Run {
                 Err((o, w)) => {
                     run.outcome("violation");
                     let key = if o == "panic" { format!("C18/panic {}", vcore::explore::panic_key(&w)) } else { format!("C18/{o}/{}/{}", j.kind, shape_of(&ps[pi].top)) };
-                    run.violation(key, format!("definition [{}] supplied {}: {w}", j.def_text.replace('\n', " "), ["in the file", "as built-in spec", "in the file and built-in"][j.mode as usize]), json!({"def": j.def_text, "mode": j.mode, "payload": j.payload.iter().map(|p| p.text()).collect::<Vec<_>>(), "expect": format!("{:?}", j.expect), "float_tol": j.float_tol, "has_str": j.has_str}));
+                    run.violation(key, format!("definition [{}] supplied {}: {w}", j.def_text.replace('\n', " "), ["in the file", "as built-in spec", "in the file and built-in"][j.mode as usize]), json!({"def": j.def_text, "mode": j.mode, "payload": j.payload.iter().map(|p| p.text()).collect::<Vec<_>>(), "expect": format!("{:?}", j.expect), "float_tol": j.float_tol, "has_str": j.has_str, "comment_at": j.comment_at}));
                 }
             }
         }
@@ -602,6 +621,6 @@ pub fn replay(v: &Value) -> Result<String, String> {
         Some("Invalid") => Expect::Invalid,
         _ => Expect::DontCare,
     };
-    let j = Job { def_idx: 0, def_text: def, has_str: v["has_str"].as_bool().unwrap_or(true), float_tol: v["float_tol"].as_bool().unwrap_or(true), mode: v["mode"].as_u64().unwrap_or(0) as u8, payload, expect, kind: "replay" };
+    let j = Job { def_idx: 0, def_text: def, has_str: v["has_str"].as_bool().unwrap_or(true), float_tol: v["float_tol"].as_bool().unwrap_or(true), mode: v["mode"].as_u64().unwrap_or(0) as u8, payload, expect, kind: "replay", comment_at: v["comment_at"].as_u64().map(|x| x as usize) };
     eval(&j).map(|s| s.to_string()).map_err(|(o, w)| format!("{o}: {w}"))
 }
